@@ -153,7 +153,8 @@ def run(case):
                 cryomap.write(src, path, **kwargs)
                 out.fail("write:overwrote_despite_overwrite_false", f"{ext}")
             except Exception:
-                out.check(open(path, "rb").read() == pre, "write:target_modified_despite_overwrite_false", ext)
+                if out.check(os.path.isfile(path), "write:target_deleted_despite_overwrite_false", ext):
+                    out.check(open(path, "rb").read() == pre, "write:target_modified_despite_overwrite_false", ext)
             return out
         ok, _ = call(out, "cryomap.write", lambda: cryomap.write(src, path, **kwargs))
         if not ok:
@@ -168,6 +169,15 @@ def run(case):
             if out.check(tuple(b.shape) == tuple(logical.shape), "read:shape", f"{b.shape} vs {logical.shape}"):
                 out.check(np.array_equal(b, logical), "read:values", lambda: f"first diff {np.argwhere(b != logical)[0].tolist()}")
                 out.check(b.dtype == logical.dtype, "read:dtype", f"{b.dtype} vs {logical.dtype}")
+        # what read() returns belongs to the caller: changing it in place must not change what the next read of the file returns
+        if ok and case["read_transpose"] and isinstance(b, np.ndarray) and b.size:
+            try:
+                b += 1
+            except Exception:
+                pass
+            ok3, b3 = call(out, "cryomap.read(again)", lambda: cryomap.read(path))
+            if ok3:
+                out.check(tuple(b3.shape) == tuple(logical.shape) and np.array_equal(b3, logical), "read:second_read_reflects_changes_made_to_first_result", "")
         # reading a file written by an independent writer
         if case["dtype"] != "float64":
             p2 = "ind" + ext
@@ -199,7 +209,8 @@ def run(case):
                 fn(src, **kw)
                 out.fail("convert:overwrote_despite_overwrite_false", op)
             except Exception:
-                out.check(open(dst, "rb").read() == pre, "convert:target_modified_despite_overwrite_false", op)
+                if out.check(os.path.isfile(dst), "convert:target_deleted_despite_overwrite_false", op):
+                    out.check(open(dst, "rb").read() == pre, "convert:target_modified_despite_overwrite_false", op)
             return out
         src_bytes = open(src, "rb").read()
         ok, _ = call(out, op, lambda: fn(src, **kw))
